@@ -37,6 +37,9 @@ func c13Doc(c *Case, div int) *xdoc.Doc {
 	if (c.Index/div)%8 == 5 {
 		return dg.DeepTree()
 	}
+	if (c.Index/div)%8 == 6 {
+		return dg.NameLikeTree(xgen.Names)
+	}
 	if dg.Chance(0.25) {
 		return dg.WideTree(4, 4)
 	}
